@@ -53,6 +53,16 @@ func runSizeQ(a *args, res *result) {
 		}
 		r := newRng(a.seed, uint64(i)*8+4)
 		fp := newFP()
+		if a.prop == "C13" {
+			// termination only: writers dancing around the shrink threshold (shrinks started,
+			// abandoned, requested again while one is running) must all return
+			if i%2 == 0 {
+				massDelete(r, res, i)
+			} else {
+				shrinkDance(r, res, i)
+			}
+			continue
+		}
 		if sizeTwinsOnly && i%4 <= 1 || !sizeTwinsOnly && i%16 == 13 {
 			hotFill(r, res, i)
 			continue
@@ -67,6 +77,10 @@ func runSizeQ(a *args, res *result) {
 		}
 		if i%16 == 5 {
 			parallelFill(r, res, i)
+			continue
+		}
+		if i%16 == 3 {
+			massDelete(r, res, i)
 			continue
 		}
 		if i%16 == 11 {
@@ -403,6 +417,69 @@ func hotFill(r rng, res *result, idx int64) {
 	fp := newFP()
 	fp.addStr("hot-fill" + specName(sp))
 	fp.add(uint64(idx))
+	res.nontrivial(fp.sum())
+}
+
+// massDelete: a table that has grown is emptied down to a dozen keys (still above
+// its shrink threshold), then one goroutine per remaining key deletes it at the same
+// moment and stores a key of its own: several shrink requests arrive while one shrink
+// is running, and the table that comes out is itself ready for another halving.
+// Everybody must return, and Size must be exact afterwards.
+func massDelete(r rng, res *result, idx int64) {
+	vshim.SetVirtual(true)
+	vshim.SetVNow(epoch)
+	grow := pick(r, []int{120, 250, 500, 1000})
+	last := pick(r, []int{8, 12, 24})
+	procs := pick(r, []int{4, 16, 16})
+	level := pick(r, []int{0, 0, 1, 2})
+	rounds := 12
+	for rd := 0; rd < rounds; rd++ {
+		t := newSizeTarget(r, noHint, 4096)
+		for k := 0; k < grow; k++ {
+			t.store(k, nextVal(k))
+		}
+		for k := last; k < grow; k++ {
+			t.del(k)
+		}
+		logCase("sizeq round %d mass-delete %s grow=%d last=%d round=%d level=%d procs=%d", idx, t.name, grow, last, rd, level, procs)
+		old := runtime.GOMAXPROCS(procs)
+		vshim.SetPerturb(level, pick(r, []vshim.Kind{vshim.KAfterCAS, vshim.KAfterUnlock, vshim.KCAS, vshim.KCondWait, vshim.NKinds}))
+		mode := vshim.MCount | vshim.MBudget
+		if level > 0 {
+			mode |= vshim.MPerturb
+		}
+		vshim.SetMode(mode)
+		vshim.ResetLive()
+		var wg sync.WaitGroup
+		start := make(chan struct{})
+		for g := 0; g < last; g++ {
+			wg.Add(1)
+			go func(g int) {
+				defer wg.Done()
+				<-start
+				t.del(g)
+				t.store(2000+g, nextVal(2000+g))
+				vshim.Progress()
+			}(g)
+		}
+		close(start)
+		wg.Wait()
+		vshim.SetMode(0)
+		runtime.GOMAXPROCS(old)
+		size, ranged := t.size(), t.ranged()
+		res.count("quiescent_points", 1)
+		res.count("mass_delete_rounds", 1)
+		if size != last || ranged != last {
+			res.violate(violation{Class: "count", Sig: "Size differs from the number of entries present after simultaneous deletes of the last keys of a grown table",
+				Msg: fmt.Sprintf("%s: Size()=%d, Range visits %d, %d keys are present", t.name, size, ranged, last), Case: map[string]any{"case_index": idx, "round": rd}})
+			break
+		}
+	}
+	res.Evaluations++
+	res.count("family:mass-delete", 1)
+	fp := newFP()
+	fp.addStr("mass-delete")
+	fp.add(uint64(idx), uint64(grow), uint64(last))
 	res.nontrivial(fp.sum())
 }
 
